@@ -375,6 +375,21 @@ func oneRun(r *vp.Recorder, key string, sc scenario, tm tamper) {
 	if err != nil || !ret.Equals(ch.Head()) {
 		// that later syncs work again is property C04's business; here only the store invariant counts
 		r.Count("healthy_retry_failed", 1)
+	} else {
+		// what the healthy sync hands to the block hook are blocks of this
+		// sync, each once: nothing of the rejected attempt is reported now
+		seen := map[string]int{}
+		for _, h := range w.HookLog() {
+			seen[h.Cid.String()]++
+			if seen[h.Cid.String()] > 1 {
+				r.Violation("hook-called-again-for-a-block-of-the-rejected-attempt:"+cls, key, fmt.Sprintf("the healthy sync after the tampered one reported %s %d times (%d hook calls for a DAG of %d blocks)", h.Cid, seen[h.Cid.String()], len(w.HookLog()), len(ch.Cids)), nil)
+				return
+			}
+		}
+		if len(w.HookLog()) > len(ch.Cids) {
+			r.Violation("hook-called-again-for-a-block-of-the-rejected-attempt:"+cls, key, fmt.Sprintf("%d hook calls for a DAG of %d blocks", len(w.HookLog()), len(ch.Cids)), nil)
+			return
+		}
 	}
 	if !audit("after healthy sync") {
 		return
